@@ -328,6 +328,9 @@ func init() {
 			// temp branch: parts only in tempFiles are written through readBytes, parts in Pkg are skipped
 			tb := strings.Contains(b, "f.tempFiles.Range(") && strings.Contains(b, "if _, ok := f.Pkg.Load(path); ok") && strings.Contains(b, "fi.Write(f.readBytes(path))")
 			fmt.Fprintf(w, "def zipTempBranchViaReadBytes : Bool := %s\n", c12Bool(tb))
+			// the temp branch skips parts that were already written from File.streams
+			iRange, iSkip, iApp := strings.Index(b, "f.tempFiles.Range("), strings.LastIndex(b, "if _, ok := f.streams[path.(string)]; ok"), strings.Index(b, "tempFiles = append(tempFiles, path.(string))")
+			fmt.Fprintf(w, "def zipTempBranchSkipsStreams : Bool := %s\n", c12Bool(iRange >= 0 && iSkip > iRange && iApp > iSkip))
 		}
 
 		// ---- saveFileList / readBytes / readXML / sharedStringsLoader shapes ----
